@@ -29,12 +29,12 @@ RULE = (
 )
 ASSUMPTIONS = ["blocksize is set to 64 through the public constructor keyword", "str bodies/chunks are compared as UTF-8"]
 REQUIRED_PROBES = {
-    "quick": ["resent_identical", "unrewindable_raised", "bodyless_unframed", "bodyless_cl0", "303_dropped_body", "chunked_ok", "cl_ok", "kind:file_offset", "kind:file_short_reads", "kind:generator", "kind:array_h"],
-    "thorough": ["resent_identical", "unrewindable_raised", "bodyless_unframed", "bodyless_cl0", "303_dropped_body", "chunked_ok", "cl_ok", "kind:file_offset", "kind:file_short_reads", "kind:generator", "kind:array_h"],
+    "quick": ["resent_identical", "unrewindable_raised", "bodyless_unframed", "bodyless_cl0", "303_dropped_body", "chunked_ok", "cl_ok", "kind:file_offset", "kind:file_short_reads", "kind:file_seek_none", "kind:generator", "kind:array_h"],
+    "thorough": ["resent_identical", "unrewindable_raised", "bodyless_unframed", "bodyless_cl0", "303_dropped_body", "chunked_ok", "cl_ok", "kind:file_offset", "kind:file_short_reads", "kind:file_seek_none", "kind:generator", "kind:array_h"],
 }
 
 BLOCK = 64
-KINDS = ["none", "bytes", "str", "str_nonascii", "bytearray", "memoryview", "array_b", "array_h", "bytesio", "textio", "file_offset", "file_tell_raises", "file_no_tell", "file_short_reads", "list", "generator", "iter_empty_chunks", "list_str"]
+KINDS = ["none", "bytes", "str", "str_nonascii", "bytearray", "memoryview", "array_b", "array_h", "bytesio", "textio", "file_offset", "file_tell_raises", "file_no_tell", "file_short_reads", "file_seek_none", "list", "generator", "iter_empty_chunks", "list_str"]
 SIZES = [0, 1, BLOCK - 1, BLOCK, BLOCK + 1, 5 * BLOCK]
 NO_BODY_METHODS = {"GET", "HEAD", "DELETE", "TRACE", "OPTIONS", "CONNECT"}
 
@@ -51,6 +51,14 @@ class _ShortReads(io.BytesIO):
         if n is None or n < 0:
             return super().read()
         return super().read(min(n, 7 + self.tell() % 5))
+
+
+class _SeekReturnsNone(io.BytesIO):
+    """Seekable, tell() works, but seek() returns None (mmap before 3.13, codecs readers, wrappers that merely delegate)."""
+
+    def seek(self, *a):
+        super().seek(*a)
+        return None
 
 
 class _NoTell:
@@ -105,6 +113,8 @@ def make_body(spec):
         return _NoTell(raw), raw
     if kind == "file_short_reads":
         return _ShortReads(raw), raw
+    if kind == "file_seek_none":
+        return _SeekReturnsNone(raw), raw
     chunks = [raw[i : i + 50] for i in range(0, len(raw), 50)]
     if kind == "list":
         return chunks, raw
